@@ -134,9 +134,7 @@ def run_integration(rep, tier, seed):
     (The integration solver is outside the theorems; runs that crash in its own consistency assertions or exceed the
     time box are skipped and counted.)"""
     import signal
-
-    class TimeBox(Exception):
-        pass
+    from .timebox import TimeBox
 
     def handler(signum, frame):
         raise TimeBox()
@@ -168,6 +166,49 @@ def run_integration(rep, tier, seed):
     finally:
         signal.signal(signal.SIGALRM, old)
     report(rep, "C01", "integration_solver", results)
+    rep.cov["oracle"]["integration_solver"]["skipped"] = dict(skipped)
+
+
+def run_integration_C02(rep, tier, seed):
+    """C02's status clauses on the flow-integration solver (outside the theorems): Unbounded only at a point that is
+    feasible to tolerance with the objective at or below the limit; LocallyInfeasible only at an infeasible point."""
+    import signal
+    from .timebox import TimeBox
+
+    def handler(signum, frame):
+        raise TimeBox()
+
+    g = Gen(seed + 202)
+    results = []
+    skipped = collections.Counter()
+    N = 40 if tier == "thorough" else 8
+    old = signal.signal(signal.SIGALRM, handler)
+    try:
+        for k in range(N):
+            fam = ["unbounded_cons", "unbounded_cons", "unbounded", "infeasible"][k % 4]
+            case = C.gen_case(g, fam, None, scaling=False)
+            case["integration"] = True
+            case["x0"] = [0.0] * len(case["x0"]) if fam == "unbounded_cons" else case["x0"]
+            case["y0"] = [0.0] * len(case["y0"])
+            case["cfg"] = {"iteration_limit": 60, "rho": g.rng.choice([1e-2, 1.0])}
+            if fam == "unbounded_cons":
+                case["cfg"]["obj_lower_limit"] = case["spec"]["cl"][0] / 2.0
+            signal.alarm(8)
+            try:
+                rec = C.run(case)
+            except TimeBox:
+                skipped["time_box"] += 1
+                continue
+            finally:
+                signal.alarm(0)
+            if rec.get("kind") != "status":
+                skipped[rec.get("kind")] += 1
+                continue
+            msg = C.oracle_C02(case, rec, counters=False)
+            results.append((case, keyof(msg), msg, "integration/%s/%s" % (fam, rec.get("status"))))
+    finally:
+        signal.signal(signal.SIGALRM, old)
+    report(rep, "C02", "integration_solver", results)
     rep.cov["oracle"]["integration_solver"]["skipped"] = dict(skipped)
 
 
@@ -387,12 +428,18 @@ def run_C09(rep, tier, seed):
         base.setdefault("obs", {"log_level": "ERROR", "display_interval": INF, "callbacks": False, "collect_path": False, "report_rcond": False})
         if case0 is None:
             base["obs"] = {"log_level": "ERROR", "display_interval": 1e9, "callbacks": False, "collect_path": False, "report_rcond": False}
+            if r.random() < 0.4:
+                # an objective that cannot be evaluated beyond a threshold (a function of the point only, so that twins see
+                # the same failures): trial points in the region are rejected, silently, whatever is displayed
+                j = r.randrange(len(base["x0"]))
+                sgn = r.choice([-1.0, 1.0])
+                base["faults"] = {"region": {"name": "obj", "var": j, "sign": sgn, "thr": base["x0"][j] + sgn * r.choice([0.25, 1.0, 4.0])}}
         ref = C.run(base)
         variants = [{"log_level": "DEBUG", "display_interval": 0.0}, {"log_level": "INFO", "display_interval": 0.0, "callbacks": True},
                     {"log_level": "WARNING", "display_interval": 0.0, "collect_path": True},
                     {"log_level": "DEBUG", "display_interval": 1e9, "report_rcond": True, "callbacks": True},
                     {"log_level": "ERROR", "display_interval": 0.0, "report_rcond": True, "collect_path": True}]
-        for v in (variants if tier == "thorough" else r.sample(variants, 3)):
+        for v in (variants if tier == "thorough" or case0 is not None else r.sample(variants, 3)):
             case = copy_case(base)
             case["obs"] = dict(base["obs"], **v)
             case["variant"] = json.dumps(v, sort_keys=True)
@@ -419,8 +466,14 @@ def run_C10(rep, tier, seed):
         case = C.gen_case(g, None, allow)
         if r.random() < 0.5:
             case["cfg"]["penalty_update"] = r.choice(["ObjectiveFilter", "LagrangianFilter", "DualNorm"])
+        if i % 3 == 0:
+            case["cfg"].update(penalty_update="DualNorm", rho=1e-8)      # a policy with state of its own, and room to grow
         ref = C.run(case, keep=True)
         solver = ref["_solver"]
+        if ref.get("params_mutated"):
+            msg = "params: solve() wrote into the Params object it was given (fields %s): the next solve with it is a different computation" \
+                  % ",".join(ref["params_mutated"])
+            results.append((dict(case, variant="params"), keyof(msg), msg, "params/%s" % (ref.get("status") or ref.get("kind"))))
         # (a) the same solver object again
         again = C.run(case, solver_obj=solver)
         msg = C.same_run(ref, again, what=("kind", "status", "x", "y", "d", "iters", "nacc", "msg"))
@@ -479,7 +532,17 @@ def run_C11(rep, tier, seed):
     r = g.rng
     results = []
     N = 40 if tier == "thorough" else 12
-    for case0 in load_corpus("C11") + [None] * N:
+    # the layers that copy (scaling, slack reformulation) shield the caller's objects: one direct case (no scaling,
+    # equality rows only) per step solver x matrix format, with the very same J / H object returned on every call
+    direct = []
+    for ss in ("Standard", "Extended", "Symmetric", "Asymmetric"):
+        for fmt in ("coo", "csr", "csc"):
+            spec = C.convex_qp(g, m=r.randint(0, 2), kinds=["eq", "eq0"])
+            x0 = g.point_in_box(spec.lb, spec.ub)
+            cfg = C.gen_config(g, {"iteration_limit": 25, "step_solver_type": ss, "linear_solver_type": "LU"})
+            direct.append({"family": "convex_qp", "spec": spec.to_json(), "sc": {"kind": "none"}, "cfg": cfg, "x0": x0,
+                           "y0": [0.0] * spec.m, "prob": {"fmt": fmt, "policy": "cached"}, "direct": True})
+    for case0 in load_corpus("C11") + direct + [None] * N:
         case = case0 or C.gen_case(g, r.choice(["convex_qp", "convex_qp", "nonlinear"]), {"iteration_limit": 40})
         if case0 is None:
             case["prob"] = {"fmt": r.choice(["coo", "csr", "csc"]), "policy": r.choice(["memo", "memo", "cached"])}
@@ -492,7 +555,9 @@ def run_C11(rep, tier, seed):
         rec = C.run(case, keep=True)
         prob = rec["_prob"]
         msg = C.same_run(ref, rec)
-        if msg:
+        if rec.get("params_mutated"):
+            msg = "inputs_modified: solve() wrote into the caller's Params (fields %s)" % ",".join(rec["params_mutated"])
+        elif msg:
             msg = "cached_differs: a problem returning %s objects (%s) gives a different result than one returning fresh copies: %s" \
                   % (case["prob"]["policy"], case["prob"]["fmt"], msg)
         if not msg:
